@@ -965,6 +965,90 @@ def _ik_same(name, body):
     return check
 
 
+def _ik_budget(name, body):
+    """The solvers stop after at most 20 Newton updates, and 'converged' is judged AFTER each update, the 20th
+    included.  A planar chain asked to stretch out fully converges linearly (singular solution), so the position error
+    shrinks by a steady factor per update; the tolerance is placed between the errors after updates k-1 and k (k = 19,
+    20, 21, measured by running the REFERENCE's own step formula), which makes the reference converge at exactly that
+    update: success for k <= 20, failure for k = 21.  The port must say the same."""
+    def check(case, ctx):
+        _, ref = libs()
+        lens = [float(x) for x in case["lens"]]
+        n = len(lens)
+        xs = np.concatenate([[0.0], np.cumsum(lens)[:-1]])
+        S = np.zeros((6, n))
+        for i in range(n):
+            S[:, i] = [0.0, 0.0, 1.0, 0.0, -xs[i], 0.0]
+        M = np.eye(4)
+        M[0, 3] = float(sum(lens))
+        A = S if not body else O.Ad(O.inv(M)) @ S
+        A = np.ascontiguousarray(A)
+        T = M.copy()
+        q0 = np.asarray(case["q0"], dtype=float)[:n].copy()
+        k = int(case["k"])
+        ctx.label("n=%d" % n)
+        ctx.label("first convergence at update %d" % k)
+        def run(start):
+            th = start.copy()
+            seq, big = [], 0.0
+            with np.errstate(all="ignore"):
+                for i in range(23):
+                    if body:
+                        V = ref.se3ToVec(ref.MatrixLog6(np.dot(ref.TransInv(ref.FKinBody(M, A, th)), T)))
+                        J = ref.JacobianBody(A, th)
+                    else:
+                        Tsb = ref.FKinSpace(M, A, th)
+                        V = np.dot(ref.Adjoint(Tsb), ref.se3ToVec(ref.MatrixLog6(np.dot(ref.TransInv(Tsb), T))))
+                        J = ref.JacobianSpace(A, th)
+                    seq.append((float(np.linalg.norm(V[:3])), float(np.linalg.norm(V[3:]))))
+                    th = th + np.dot(np.linalg.pinv(J), V)
+                    big = max(big, float(np.abs(th).max()))
+            return seq, big
+
+        seq, big = run(q0)
+        # The same iteration from a start moved by parts in 1e13: a Newton path that steps through near-singular
+        # Jacobians amplifies such a difference (and the port's differently rounded pseudo-inverse) until the two runs
+        # have nothing to do with each other; only paths that are insensitive to it say anything about the loop bound.
+        seq2, big2 = run(q0 * (1.0 + 1e-13) + 1e-13)
+        if not np.all(np.isfinite(np.array(seq))):
+            ctx.skip("reference iteration not finite")
+        which = None
+        for c in (1, 0):            # position error first (the orientation of a planar chain is linear in the joints)
+            tail = [seq[i][c] for i in range(k - 4, k + 1)]
+            if all(tail[j + 1] < 0.9 * tail[j] for j in range(4)) and tail[-1] > 1e-11 and all(seq[i][c] > tail[-2] * 0.999 for i in range(k)):
+                which = c
+                break
+        if which is None:
+            ctx.skip("no steadily shrinking error around update %d (converged earlier, or not converging)" % k)
+        if not np.all(np.isfinite(np.array(seq2))) or max(big, big2) > 50.0 or any(
+                abs(seq2[i][which] / seq[i][which] - 1.0) > 1e-3 for i in (k - 1, k)):
+            ctx.skip("Newton path sensitive to a 1e-13 change of the start (wanders through near-singular Jacobians)")
+        tolv = math.sqrt(seq[k - 1][which] * seq[k][which])
+        other = 1e6
+        # the other criterion must already hold at update k (it is set far above anything the iteration produces)
+        eomg, ev = (tolv, other) if which == 0 else (other, tolv)
+        args = (A, M, carr(T), carr(q0), float(eomg), float(ev))
+        ok, r = call_ref(name, args)
+        if not ok:
+            ctx.skip(r)
+        rsucc = bool(r[1])
+        if rsucc != (k <= 20):
+            ctx.skip("the reference does not converge at the update the step-by-step run predicts")
+        ctx.nontrivial(True)
+        pth, psucc = _ik_shape(name, call_port(name, args), n)
+        if psucc != rsucc:
+            raise Violation("%s: tolerance placed so that the reference first meets it after update %d of at most 20: "
+                            "reference reports success=%s, port reports success=%s" % (name, k, rsucc, psucc))
+        if rsucc:
+            d = float(np.linalg.norm(pth - np.asarray(r[0], dtype=float)))
+            if d > 1e-6 * max(1.0, float(np.abs(r[0]).max())):
+                s_ = ref_sensitivity(name, args, r, (0, 1, 2, 3))
+                if s_ <= 1e-7:
+                    raise Violation("%s: both converge at update %d but |theta_port - theta_ref| = %.3g" % (name, k, d))
+    return check
+
+
+
 # ----------------------------------------------------------------------------------------------
 # dynamics
 # ----------------------------------------------------------------------------------------------
@@ -1151,6 +1235,15 @@ def s_ik():
     return per_n(1, 7, build)
 
 
+def s_ik_budget():
+    return st.fixed_dictionaries({
+        "lens": st.lists(G.floats(0.3, 2.0), min_size=2, max_size=4),
+        # large starts: the error shrinks by 4 per update once the chain is nearly stretched, so only an iteration that
+        # wanders for a while first is still above the rounding floor (~1e-12) around update 20
+        "q0": st.lists(st.one_of(G.floats(-3.0, 3.0), G.floats(1.5, 3.0), G.floats(-3.0, -1.5)), min_size=4, max_size=4),
+        "k": st.sampled_from([19, 20, 20, 21])})
+
+
 def s_dyn(fields, nmax=7):
     def build(n):
         d = {"model": model_strategy(n), "q": joint_vec(n)}
@@ -1335,6 +1428,8 @@ _IK = [
     ("ik_success_meets_tol_IKinSpace", _ik_success("IKinSpace", False), s_ik(), 200, 6000),
     ("ik_same_solution_IKinBody", _ik_same("IKinBody", True), s_ik(), 200, 6000),
     ("ik_same_solution_IKinSpace", _ik_same("IKinSpace", False), s_ik(), 200, 6000),
+    ("ik_iteration_budget_IKinBody", _ik_budget("IKinBody", True), s_ik_budget(), 100, 1600),
+    ("ik_iteration_budget_IKinSpace", _ik_budget("IKinSpace", False), s_ik_budget(), 100, 1600),
 ]
 
 CLAUSES = [Clause("eq_" + n, c, s, COUNTS[n][0], COUNTS[n][1]) for (n, c, s) in _EQ] + \
